@@ -156,7 +156,7 @@ impl Property for Prop {
         "C07"
     }
     fn rule(&self) -> &'static str {
-        "merges: for each shape (fragments per PDU: 2x2, 2x3, 3x3, 2x4, 2x5, 3x4, 4x4, 5x5, 3x3x3, 2x3x4, 2x2x2x2, 2x2x3; thorough adds 4x4x4, 3x3x3x3, 5x5x2x2, 4x5x5, 2x2x2x3) trains (one in three with header extensions, which belong to the delivered metadata) are built by the real encapsulator on fragment ids distinct modulo the slot count (each shape on memories of 4, 3, 6 and 5 slots) and EVERY order-preserving merge is decapsulated on a fresh receiver (key = shape x memory size x 8 parts of the merge index space); the result stream restricted to each train must equal that train decapsulated alone, with exactly one delivery per PDU at its own end fragment. strays: for every merge of the small shapes one stray packet is inserted at EVERY position from {intermediate / end of an unknown id in an empty slot, intermediate / end of an id aliasing an open slot (id +/- slots), complete packet (accepted), complete packet too large for the storage (rejected), padding, a first fragment of an unknown or aliasing id that the receiver refuses (unknown mandatory extension, null label, total length too small: a refused first fragment does not claim the slot), an intermediate / end fragment carrying a train's own id before that train has started, and the non-packet event 'the application provisions storage until the memory reports it is full'}; the packet strays whose rejection must consume exactly the packet are also presented FRAMED (stray and the following train packet in one buffer, walked by consumed lengths). restart: a new first fragment on the same id restarts only that id (also when the abandoned and the new PDU differ in label mode: one first fragment carries its label, the other re-uses the preceding packet's). sampled: random merges of 4x5 with an aliasing stray on memories of 4..7, 255, 256 slots (ids 0, 255, 64, 1 there) and 100 / 200 slots (ids 64 and 128 apart). reuse-strays: all merges of 2x2, 2x3, 3x3, 2x2x2 where every PDU carries the same label and the re-use-enabled encapsulator is driven in the merge order (substituted first fragments; every second PDU through encap_ext with an optional extension; each PDU must be delivered exactly once), with a stray intermediate / end packet of an unknown or aliasing id at every position; reference = the same stream without the stray; additionally an extra PDU whose damaged end fragment (length mismatch) is rejected at every position. scarce: 4 trains of 3 fragments with only 1..3 storage buffers: every PDU whose first fragment was accepted is delivered exactly once. (All receivers are built with max_pdu_frag = length of the longest train.) Evaluations = decap calls; non-trivial = a merge in which at least two trains were really interleaved; fingerprint = hash(shape, merge order, stray)."
+        "merges: for each shape (fragments per PDU: 2x2, 2x3, 3x3, 2x4, 2x5, 3x4, 4x4, 5x5, 3x3x3, 2x3x4, 2x2x2x2, 2x2x3; thorough adds 4x4x4, 3x3x3x3, 5x5x2x2, 4x5x5, 2x2x2x3) trains (one in three with header extensions, which belong to the delivered metadata) are built by the real encapsulator on fragment ids distinct modulo the slot count (each shape on memories of 4, 3, 6 and 5 slots) and EVERY order-preserving merge is decapsulated on a fresh receiver (key = shape x memory size x 8 parts of the merge index space); the result stream restricted to each train must equal that train decapsulated alone, with exactly one delivery per PDU at its own end fragment. strays: for every merge of the small shapes one stray packet is inserted at EVERY position from {intermediate / end of an unknown id in an empty slot, intermediate / end of an id aliasing an open slot (id +/- slots), complete packet (accepted), complete packet too large for the storage (rejected), padding, a first fragment of an unknown or aliasing id that the receiver refuses (unknown mandatory extension, null label, total length too small: a refused first fragment does not claim the slot), an intermediate / end fragment carrying a train's own id before that train has started, and the non-packet event 'the application provisions storage until the memory reports it is full'}; the packet strays whose rejection must consume exactly the packet are also presented FRAMED (stray and the following train packet in one buffer, walked by consumed lengths). restart: a new first fragment on the same id restarts only that id (one run in three with the free list topped up to full just before the restart; also when the abandoned and the new PDU differ in label mode: one first fragment carries its label, the other re-uses the preceding packet's). sampled: random merges of 4x5 with an aliasing stray on memories of 4..7, 255, 256 slots (ids 0, 255, 64, 1 there) and 100 / 200 slots (ids 64 and 128 apart). reuse-strays: all merges of 2x2, 2x3, 3x3, 2x2x2 where every PDU carries the same label and the re-use-enabled encapsulator is driven in the merge order (substituted first fragments; every second PDU through encap_ext with an optional extension; each PDU must be delivered exactly once), with a stray intermediate / end packet of an unknown or aliasing id at every position; reference = the same stream without the stray; additionally an extra PDU whose damaged end fragment (length mismatch) is rejected at every position. allopen: a PDU in flight on every one of the 256 fragment ids at once (256 / 300 slots; id order, reverse, permuted): each delivered exactly once. scarce: 4 trains of 3 fragments with only 1..3 storage buffers: every PDU whose first fragment was accepted is delivered exactly once. (All receivers are built with max_pdu_frag = length of the longest train.) Evaluations = decap calls; non-trivial = a merge in which at least two trains were really interleaved; fingerprint = hash(shape, merge order, stray)."
     }
     fn gens(&self, cx: &Cx) -> Vec<Gen> {
         let s = shapes(cx).len() as u64;
@@ -167,6 +167,7 @@ impl Property for Prop {
             Gen { name: "sampled", count: cx.n(10_000, 1_000_000), exhaustive: false },
             Gen { name: "reuse-strays", count: 4 * 2 * PARTS, exhaustive: true },
             Gen { name: "scarce", count: cx.n(3_000, 300_000), exhaustive: false },
+            Gen { name: "allopen", count: 6, exhaustive: true },
         ]
     }
     fn run_key(&self, cx: &Cx, gen: &str, key: u64, rep: &mut Report) {
@@ -335,6 +336,9 @@ impl Property for Prop {
                     // an intermediate / end fragment carrying the id of train 0 / of the last train BEFORE that train
                     // has started (only positions up to the train's first packet are used): it is refused and must
                     // not be remembered against the train that starts afterwards
+                    // a damaged first-fragment header announcing GSE length 0 (it carries no fragment id at all), followed
+                    // in its buffer by a byte equal to train 0's id and zeroes
+                    strays.push((vec![0xA0, 0x00, trains[0].id, 0x00, 0x00], "start-header-with-gse-length-0-then-id-byte", false));
                     strays.push((mk_inter(trains[0].id, b"early"), "early-intermediate-of-train-0", true));
                     strays.push((mk_end(trains[trains.len() - 1].id, b"early", 0x0BAD_C0DE), "early-end-of-last-train", true));
                 }
@@ -589,6 +593,50 @@ impl Property for Prop {
                 };
                 merges(&mut counts, &mut cur, total, &mut idx, part, &mut f);
             }
+            "allopen" => {
+                // one PDU in flight on EVERY fragment id (256 / 300-slot memories with a buffer for each): all first
+                // fragments, then all intermediates, then all ends, in id order / reverse / a seeded permutation
+                let mut rng = Rng::derive(cx.seed, fnv(gen.as_bytes()), key);
+                let slots_a = [256usize, 300][(key % 2) as usize];
+                let fr = crate::refcrc::FastRef::new();
+                let mut ids: Vec<usize> = (0..256).collect();
+                match key / 2 {
+                    1 => ids.reverse(),
+                    2 => {
+                        for i in (1..256).rev() {
+                            ids.swap(i, rng.below(i + 1));
+                        }
+                    }
+                    _ => {}
+                }
+                let pdus: Vec<Vec<u8>> = (0..256usize).map(|i| { let n = 9 + i % 7; (0..n).map(|k| (i as u8).wrapping_mul(7).wrapping_add(k as u8)).collect() }).collect();
+                let trains: Vec<Vec<Vec<u8>>> = (0..256usize).map(|i| crate::hostile::mk_train(&fr, 2, &[], i as u8, 0x0800 + (i as u16 % 5), &pdus[i], &[3, 6])).collect();
+                let mut d = plain_dec(slots_a, 16, 258, 16, MandTable::none());
+                let mut delivered = 0usize;
+                for step in 0..3 {
+                    for &i in &ids {
+                        rep.eval();
+                        let r = dec_guard(&mut d, &trains[i][step]);
+                        let ok = match &r {
+                            Ok(Ok((DecapStatus::FragmentedPkt(_), _))) => step < 2,
+                            Ok(Ok((DecapStatus::CompletedPkt(b, m), _))) => step == 2 && m.pdu_len() == pdus[i].len() && b[..pdus[i].len()] == pdus[i][..] && m.protocol_type() == 0x0800 + (i as u16 % 5),
+                            _ => false,
+                        };
+                        if !ok {
+                            rep.violation("C07", format!("all-ids-in-flight:{}", ["first", "intermediate", "end"][step]), || format!("{}-slot memory with a PDU in flight on every fragment id: {} fragment of id {} -> {}", slots_a, ["first", "intermediate", "end"][step], i, outcome(&r)), &replay);
+                            return;
+                        }
+                        if let Ok(Ok((DecapStatus::CompletedPkt(b, _), _))) = r {
+                            delivered += 1;
+                            let _ = d.provision_storage(b);
+                        }
+                    }
+                }
+                if delivered == 256 {
+                    rep.count("c07.all-ids-in-flight-ok");
+                    rep.nontrivial(mix(0xA11, key));
+                }
+            }
             "scarce" => {
                 // more PDUs in flight than storage buffers: a PDU whose first fragment finds no storage is lost
                 // as a whole, but every PDU whose first fragment was accepted is still delivered exactly once
@@ -674,7 +722,16 @@ impl Property for Prop {
                 let mut d = plain_dec(slots, 64, (slots + 2).min(10), 64, table.clone());
                 // feed: t0[0], t1[0], t0[1] (old), then restart: a[0], t1[1], a[1], a[2] -> delivered a; t1[2] -> delivered t1
                 let seq: Vec<(&Vec<u8>, &str)> = vec![(&trains[0].pkts[0], "F"), (&trains[1].pkts[0], "F"), (&trains[0].pkts[1], "F"), (&a.pkts[0], "F"), (&trains[1].pkts[1], "F"), (&a.pkts[1], "F"), (&a.pkts[2], "Ca"), (&trains[1].pkts[2], "C1")];
+                let topup = key % 3 == 0;
                 for (i, (p, want)) in seq.iter().enumerate() {
+                    if topup && i == 3 {
+                        // just before the restart the application tops the free list up until the memory says full
+                        for _ in 0..32 {
+                            if d.provision_storage(vec![0u8; 64].into_boxed_slice()).is_err() {
+                                break;
+                            }
+                        }
+                    }
                     rep.eval();
                     let r = dec_guard(&mut d, p);
                     let ok = match (&r, *want) {
@@ -684,7 +741,7 @@ impl Property for Prop {
                         _ => false,
                     };
                     if !ok {
-                        rep.violation("C07", format!("restart-on-same-id:step{}", i), || format!("restart history step {} ({}): expected {}, got {}", i, hex_short(p, 24), want, outcome(&r)), &replay);
+                        rep.violation("C07", format!("restart-on-same-id:step{}{}", i, if topup { ":free-list-full" } else { "" }), || format!("restart history step {} ({}): expected {}, got {}", i, hex_short(p, 24), want, outcome(&r)), &replay);
                         return;
                     }
                     if let Ok(Ok((DecapStatus::CompletedPkt(b, _), _))) = r {
